@@ -16,7 +16,8 @@ pub struct C18;
 fn aux() -> Map<String, Value> {
     let mut m = Map::new();
     m.insert("AuxShort".into(), json!({"type": "string", "minLength": 1, "maxLength": 4}));
-    m.insert("AuxEnum".into(), json!({"type": "string", "enum": ["one", "two", "three"]}));
+    // (members with braces: the text a string setter must match is the raw value)
+    m.insert("AuxEnum".into(), json!({"type": "string", "enum": ["one", "two", "/users/{id}", "{}"]}));
     m.insert("AuxStruct".into(), json!({"type": "object", "properties": {"ax": {"type": "integer"}}, "required": ["ax"]}));
     // named types that carry their own default
     m.insert("AuxLabel".into(), json!({"type": "string", "maxLength": 16, "default": "unnamed"}));
@@ -113,7 +114,8 @@ pub fn gen_c18_case(g: &mut G) -> Value {
     // failing / succeeding conversions through the setter of a required newtype-typed property
     for n in &names {
         let ps = &doc["definitions"]["Target"]["properties"][n];
-        if ps.get("$ref") == Some(&json!("#/definitions/AuxShort")) && doc["definitions"]["Target"]["required"].as_array().map(|r| r.contains(&json!(n))).unwrap_or(false) {
+        let target_def = ps.get("$ref").and_then(|r| r.as_str()).unwrap_or("");
+        if matches!(target_def, "#/definitions/AuxShort" | "#/definitions/AuxEnum") && doc["definitions"]["Target"]["required"].as_array().map(|r| r.contains(&json!(n))).unwrap_or(false) {
             // everything else that is required is set properly
             let mut obj = Map::new();
             for m in names.iter().filter(|m| *m != n) {
@@ -125,7 +127,8 @@ pub fn gen_c18_case(g: &mut G) -> Value {
                     obj.insert(m.clone(), inst.gen(g, &ps2, 2));
                 }
             }
-            for raw in ["ok", "much-too-long-for-it", ""] {
+            let raws: &[&str] = if target_def.ends_with("AuxShort") { &["ok", "much-too-long-for-it", ""] } else { &["one", "/users/{id}", "{}", "/users/{{id}}", "{{}}", "zz", "", "One"] };
+            for raw in raws {
                 probes.push(Probe { root: 0, op: "builder".into(), arg: json!({"set": Value::Object(obj.clone()), "raw": {n.clone(): raw}}), tag: "raw".into() });
             }
         }
@@ -187,6 +190,7 @@ impl Property for C18 {
         let mut body = String::new();
         body.push_str(&format!("fn __vrf_build(arg: &::serde_json::Value) -> ::std::result::Result<::std::string::String, ::std::string::String> {{\n    let mut b = <{}>::builder();\n", f.ident));
         let mut wire: Vec<(String, String, String)> = vec![]; // (json name, field ident, type ident)
+        let mut raw_capable: Vec<String> = vec![]; // properties whose setter is also fed raw strings
         for p in &f.props {
             let field = item.fields.iter().find(|fl| fl.ident.as_deref() == Some(p.name.as_str()) || fl.ident.as_deref() == p.name.strip_prefix("r#"));
             let Some(field) = field else {
@@ -204,6 +208,7 @@ impl Property for C18 {
             // raw strings through TryFrom<String>, when the field type offers it
             let has_try = r.index.impls.iter().any(|i| i.self_ty == p.type_ident.replace(' ', "") && i.trait_ == "::std::convert::TryFrom<::std::string::String>");
             if has_try {
+                raw_capable.push(json_name.clone());
                 body.push_str(&format!(
                     "    if let ::std::option::Option::Some(v) = arg[\"raw\"].get({jn:?}) {{ b = b.{id}(::std::string::String::from(v.as_str().unwrap_or(\"\"))); }}\n",
                     jn = json_name,
@@ -223,7 +228,7 @@ impl Property for C18 {
         unit.probes = case.probes.clone();
         let (m, keys) = module(&case.settings.type_mod, r.text, &drv);
         unit.module = Some(m);
-        unit.info = json!({"wire": wire, "drv_keys": keys, "api_required": f.props.iter().filter(|p| p.required).map(|p| p.name.clone()).collect::<Vec<_>>()});
+        unit.info = json!({"wire": wire, "raw_capable": raw_capable, "drv_keys": keys, "api_required": f.props.iter().filter(|p| p.required).map(|p| p.name.clone()).collect::<Vec<_>>()});
         unit
     }
     fn in_domain(&self, case_v: &Value) -> bool {
@@ -316,13 +321,28 @@ impl Property for C18 {
                             continue;
                         }
                     }
+                    // a raw string for a property whose type offers no TryFrom<String> was not fed to any setter
+                    if raw.keys().any(|k| !unit.info["raw_capable"].as_array().map(|a| a.contains(&json!(k))).unwrap_or(false)) {
+                        *j.counters.entry("raw_script_without_string_setter".into()).or_default() += 1;
+                        continue;
+                    }
                     *j.counters.entry("builder_scripts".into()).or_default() += 1;
                     let covered = required.iter().all(|q| set.contains_key(q) || raw.contains_key(q));
                     if !required.is_empty() && required.len() < nprops && !set.is_empty() && set.len() < nprops {
                         nontrivial = true;
                     }
-                    // expected conversion outcome of raw strings: AuxShort = 1..=4 scalar values
-                    let raw_ok = raw.values().all(|v| v.as_str().map(|s| (1..=4).contains(&s.chars().count())).unwrap_or(false));
+                    // expected conversion outcome of raw strings: AuxShort = 1..=4 scalar values,
+                    // AuxEnum = exactly the enumerated values
+                    let raw_converts = |prop: &str, v: &Value| -> bool {
+                        let Some(s) = v.as_str() else { return false };
+                        let def = doc["definitions"]["Target"]["properties"][prop]["$ref"].as_str().unwrap_or("");
+                        if def.ends_with("AuxEnum") {
+                            doc["definitions"]["AuxEnum"]["enum"].as_array().map(|e| e.iter().any(|m| m.as_str() == Some(s))).unwrap_or(false)
+                        } else {
+                            (1..=4).contains(&s.chars().count())
+                        }
+                    };
+                    let raw_ok = raw.iter().all(|(k, v)| raw_converts(k, v));
                     let expect_ok = covered && raw_ok;
                     match (expect_ok, r) {
                         (true, ProbeResult::Ok(built)) => {
@@ -338,7 +358,7 @@ impl Property for C18 {
                         (false, ProbeResult::Err(e)) if e.starts_with("BUILD-ERR") => {
                             if covered && !raw_ok {
                                 // the error must name the property
-                                let (bad, _) = raw.iter().find(|(_, v)| !v.as_str().map(|s| (1..=4).contains(&s.chars().count())).unwrap_or(false)).unwrap();
+                                let (bad, _) = raw.iter().find(|(k, v)| !raw_converts(k, v)).unwrap();
                                 let field = unit.info["wire"].as_array().and_then(|w| w.iter().find(|x| x[0] == json!(bad))).and_then(|x| x[1].as_str().map(|s| s.to_string())).unwrap_or_default();
                                 if !e.contains(bad.as_str()) && !e.contains(&field) {
                                     j.violations.push(Violation::new("error-does-not-name-property", format!("setter for {bad} failed but the error is {e:?}")));
